@@ -111,7 +111,9 @@ def body_stream(ctx, w, N, reset_at=None):
                         ctx.witness("dip")
 
 
-def body_batch(ctx, N, set_ref, reset_at=None):
+def body_batch(ctx, N, set_ref, reset_at=None, sizes=None):
+    """sizes: rows per batch (cycled) - references of different sizes within one history (seed C09-9 froze the
+    bootstrap sample size at the size of the first reference)"""
     with DRIVERS["KdqTreeBatch"](ctx, dim=2, rows=2) as drv:
         d = drv.det
         ref = None
@@ -132,6 +134,8 @@ def body_batch(ctx, N, set_ref, reset_at=None):
                 ctx.witness("manual-reset")
             nlog = len(drv.log)
             ncrit = len(drv.crit_calls)
+            if sizes:
+                drv.cfg["rows"] = sizes[i % len(sizes)]
             x = drv.step(i)
             new = drv.log[nlog:]
             builds = [e for e in new if e[0] == "build"]
@@ -141,6 +145,8 @@ def body_batch(ctx, N, set_ref, reset_at=None):
                 ctx.prove(len(builds) == 1 and _rows_equal(ctx, builds[0][1], prev), "drifted-batch-becomes-the-reference")
                 ref, crit = prev, drv.crit_calls[ncrit][2] if len(drv.crit_calls) > ncrit else None
                 ctx.prove(crit is not None, "critical-value-recomputed-for-new-reference")
+                ctx.prove(len(drv.crit_calls) > ncrit and drv.crit_calls[ncrit][1] == len(prev),
+                          "critical-value-sample-size-is-reference-size")
                 ctx.witness("after-drift")
                 builds = []
             if ref is None:
@@ -230,6 +236,10 @@ def jobs(tier):
     for sr in (False, True):
         out.append(Job(f"batch-setref{int(sr)}", "checks.c09:body_batch", {"N": 5 if q else 6, "set_ref": sr},
                        expect=("drift", "after-drift"), opts={"validate": 1}))
+    for sr in (False, True):
+        out.append(Job(f"batch-uneven-setref{int(sr)}", "checks.c09:body_batch",
+                       {"N": 5 if q else 6, "set_ref": sr, "sizes": [2, 4, 3, 5]}, expect=("drift", "after-drift"),
+                       opts={"validate": 1}))
     # an explicit reset() at every position of a short history
     for k in (1, 2, 3):
         out.append(Job(f"stream-w2-reset{k}", "checks.c09:body_stream", {"w": 2, "N": k + 5, "reset_at": k},
